@@ -1001,7 +1001,9 @@ func (c *Canonicalizer) processInstruction(instr ssa.Instruction) {
 			c.scratch.WriteString(", CommaOk")
 		}
 	case *ssa.MakeInterface:
-		c.scratch.WriteString(fmt.Sprintf("MakeInterface %s, %s", sanitizeType(i.Type()), c.NormalizeOperand(i.X, instr)))
+		// The dynamic type is part of the boxed value: a constant operand carries none in its
+		// text (int8(1) and int16(1) both render const(1)), so the operand's type is spelled out.
+		c.scratch.WriteString(fmt.Sprintf("MakeInterface %s, %s:%s", sanitizeType(i.Type()), c.NormalizeOperand(i.X, instr), sanitizeType(i.X.Type())))
 	case *ssa.ChangeType:
 		c.scratch.WriteString(fmt.Sprintf("ChangeType %s, %s", sanitizeType(i.Type()), c.NormalizeOperand(i.X, instr)))
 	case *ssa.Convert:
